@@ -302,21 +302,62 @@ def reservoir_machine():
     return ReservoirMachine
 
 
+def run_burst(spec, ctx):
+    """far more requests to one route than its sample store holds: the *count* must still be exact (part A only sends
+    a few dozen requests per history; the store's default capacity is 2**14)"""
+    import random
+    rng = random.Random(ctx.hseed(5))
+    for rep in range(spec['reps']):
+        sim = StatsSim(ctx)
+        plan = [('/r/answer', 'GET', 16384 + rng.randint(1, 900)), ('/nowhere', 'GET', 16384 + rng.randint(1, 400)),
+                ('/r/raise403', 'GET', rng.randint(1, 50))]
+        rng.shuffle(plan)
+        case = ['burst', [list(p) for p in plan]]
+        ctx.case(case)
+        try:
+            for path, method, n in plan:
+                for _ in range(n):
+                    r = call(sim.app, path, method)
+                    for pk in executed(sim.table, path, method):
+                        sim.model[pk] += 1
+                ctx.requests += n
+            sim.step(['read'])
+            sim.step(['reset'])
+            sim.step(['req', '/r/answer', 'GET'])
+            sim.step(['read'])
+            ctx.nt(case, sample=len(ctx.samples) < 1)
+            ctx.event('A-burst')
+        except Exception as e:
+            ctx.classify_exc(e, case, 'burst')
+
+
 def shards(tier, seed):
     q = tier == 'quick'
     out = [{'part': 'A', 'n': 25 if q else 600, 'steps': 40} for _ in range(8)]
-    out += [{'part': 'B', 'n': 60 if q else 6000, 'steps': 30 if q else 50} for _ in range(8)]
+    out += [{'part': 'B', 'n': 60 if q else 6000, 'steps': 30 if q else 50} for _ in range(7)]
+    out.append({'part': 'burst', 'reps': 1 if q else 12})
     return out
 
 
 def run_shard(spec, ctx):
-    if spec['part'] == 'A':
+    if spec['part'] == 'burst':
+        run_burst(spec, ctx)
+    elif spec['part'] == 'A':
         ctx.machine(stats_machine(), spec['n'], spec['steps'], kind='stats')
     else:
         ctx.machine(reservoir_machine(), spec['n'], spec['steps'], kind='reservoir')
 
 
 def replay(case, kind, ctx):
+    if kind == 'burst' or (case and case[0] == 'burst'):
+        sim = StatsSim(ctx)
+        for path, method, n in case[1]:
+            for _ in range(n):
+                call(sim.app, path, method)
+                for pk in executed(sim.table, path, method):
+                    sim.model[pk] += 1
+        sim.step(['read'])
+        return
     steps = case
     if steps and steps[0] == 'stats':
         steps = steps[1]
